@@ -241,8 +241,18 @@ def verify(w, accept):
         SG.VerifyKey = real
     w.claim('does not raise', k == 'ok')
     w.claim('result is the primitive\'s verdict', k == 'ok' and r is accept)
-    w.claim('the primitive receives exactly the given key, message and signature, once',
-            len(seen) == 2 and seen[0][1] is pk and seen[1][1] is m and seen[1][2] is s)
+    # by VALUE (a copy of the same bytes is as good as the object); the combined form verify(sig ++ msg) denotes the same check only
+    # when the signature has exactly 64 bytes (the primitive cuts the combined form at byte 64)
+    shape = len(seen) == 2 and seen[0][0] == 'key' and seen[1][0] == 'verify'
+    w.claim('the primitive is constructed once and asked once', shape)
+    if shape:
+        B = w.bytes_seq
+        sm, sg = seen[1][1], seen[1][2]
+        detached = sg is not None and w.And(w.eq_seq(B(sm), B(m)), w.eq_seq(B(sg), B(s)))
+        combined = sg is None and len(s) == 64 and w.eq_seq(B(sm), B(s) + B(m))
+        w.claim('the primitive receives exactly the given key', w.eq_seq(B(seen[0][1]), B(pk)))
+        w.claim('the primitive receives exactly the given message and signature (detached, or combined with a 64-byte signature)',
+                w.Or(detached, combined))
 
 
 @obligation('C20.mnemonic', 'C20', kind='bounded', samples=6,
